@@ -222,7 +222,9 @@ Definition parse_header (s : mstructs) (bs : list Z) : res raw_header :=
 Record msections : Type := {
   sec_line : list Z;
   sec_line_str : option (list Z);
-  sec_str : option (list Z)
+  sec_str : option (list Z);
+  (* self.supplementary_dwarfinfo: None, or a DWARFInfo seen through its debug_str_sec *)
+  sec_sup_str : option (option (list Z))
 }.
 
 (* get_string_from_linetable / get_string_from_table: parse_cstring_from_stream(sec.stream, offset) *)
@@ -240,6 +242,20 @@ Definition get_string (sec : option (list Z)) (v : dval) : res dval :=
                end
       | _ => Err (EPy "TypeError")
       end
+  end.
+
+(* str(x).encode() of a non-negative int *)
+Fixpoint dec_digits (fuel : nat) (n : Z) (acc : list Z) : list Z :=
+  match fuel with
+  | O => acc
+  | S f => let acc' := (48 + n mod 10) :: acc in if n <? 10 then acc' else dec_digits f (n / 10) acc'
+  end.
+Definition py_str_int (n : Z) : list Z := dec_digits (S (Z.to_nat (Z.log2 n))) n [].
+(* lambda x: str(x).encode()  -- the fallback when no supplementary file was given *)
+Definition str_of_offset (v : dval) : res dval :=
+  match v with
+  | DInt x => if x <? 0 then Err (EPy "OutOfModel") else Ok (DBytes (py_str_int x))
+  | _ => Err (EPy "OutOfModel")
   end.
 
 (* replace_value(data, content_type, replacer) *)
@@ -277,7 +293,12 @@ Fixpoint resolve_fields (secs : msections) (fmt : list (Z * Z)) (data : list (li
             do data' <- replace_value data ct (get_string (sec_str secs));
             resolve_fields secs fr data'
           else if name_in n ["DW_FORM_strp_sup"; "DW_FORM_GNU_strp_alt"]%string then
-            Err (EPy "OutOfModel")                   (* supplementary object files: not modelled *)
+            (* if self.supplementary_dwarfinfo: its get_string_from_table, else the offset as text *)
+            do data' <- (match sec_sup_str secs with
+                         | Some sup => replace_value data ct (get_string sup)
+                         | None => replace_value data ct str_of_offset
+                         end);
+            resolve_fields secs fr data'
           else if name_in n ["DW_FORM_strp_sup"; "DW_FORM_strx"; "DW_FORM_strx1"; "DW_FORM_strx2";
                              "DW_FORM_strx3"; "DW_FORM_strx4"]%string then
             Err (EPy "NotImplementedError")
